@@ -1,6 +1,6 @@
-(* C07 / C02: the code the translator writes for a property path (internal/generator/path.go, regular properties): one clause
+(* C07 / C02: the code the translator writes for a property path (internal/generator/path.go, regular and custom properties): one clause
    per alternative (PathSem.trav: traverse / traverseOr / traverseAnd), and for every step of a clause the statements of
-   traverseRegularProperty, the variable of a step being <v>_<number of path variables so far>.
+   traverseRegularProperty / traverseCustomProperty, the variable of a step being <v>_<number of path variables so far>.
    [render] is the text of a statement, byte for byte (the correspondence run compares it with the lines of the path rules in
    the real generated module for every path of the C02 run); [du] is its reading: the variable it binds and the variables it
    needs bound (data.* and the helper rules nested_nodes / nodes_array / search_subjects are global). *)
@@ -15,7 +15,12 @@ Inductive pstmt :=
 | PGet (src iri : string)                     (* nodes_tmp = object.get(<src>,"<iri>",[]) *)
 | PArr                                        (* nodes_tmp2 = nodes_array with data.nodes as nodes_tmp *)
 | PLast (b : string)                          (* <b> = nodes_tmp2[_] *)
-| PNodes (v : string).                        (* nodes = <v> *)
+| PNodes (v : string)                         (* nodes = <v> *)
+(* custom (annotation) properties: the IRI lies in the api-extension namespace; <name> is its local name *)
+| PCInv (b name src : string)                 (* search_custom_property_subjects[<b>] with data.property_extension as "<name>" with data.object as <src> *)
+| PCExt (b src name : string)                 (* tmp_<b> = gen_path_extension with data.custom_property_data as [<src>, "<name>"] *)
+| PCTmp2 (b : string)                         (* tmp2_<b> = tmp_<b>[_][_] *)
+| PCId (b : string).                          (* <b> = object.get(tmp2_<b>,"@id","") *)
 
 Definition q (s : string) : string := """" ++ s ++ """".
 Definition render (s : pstmt) : string :=
@@ -28,6 +33,10 @@ Definition render (s : pstmt) : string :=
   | PArr => "nodes_tmp2 = nodes_array with data.nodes as nodes_tmp"
   | PLast b => b ++ " = nodes_tmp2[_]"
   | PNodes v => "nodes = " ++ v
+  | PCInv b name src => "search_custom_property_subjects[" ++ b ++ "] with data.property_extension as " ++ q name ++ " with data.object as " ++ src
+  | PCExt b src name => "tmp_" ++ b ++ " = gen_path_extension with data.custom_property_data as [" ++ src ++ ", " ++ q name ++ "]"
+  | PCTmp2 b => "tmp2_" ++ b ++ " = tmp_" ++ b ++ "[_][_]"
+  | PCId b => b ++ " = object.get(tmp2_" ++ b ++ ",""@id"","""")"
   end.
 (* (variable bound, variables that must be bound before) *)
 Definition du (s : pstmt) : string * list string :=
@@ -40,13 +49,41 @@ Definition du (s : pstmt) : string * list string :=
   | PArr => ("nodes_tmp2", ["nodes_tmp"])
   | PLast b => (b, ["nodes_tmp2"])
   | PNodes v => ("nodes", [v])
+  | PCInv b _ src => (b, [src])
+  | PCExt b src _ => ("tmp_" ++ b, [src])
+  | PCTmp2 b => ("tmp2_" ++ b, ["tmp_" ++ b])
+  | PCId b => (b, ["tmp2_" ++ b])
   end.
 
 Definition binding (v : string) (k : nat) : string := v ++ "_" ++ dec k.
+(* Property.IsCustom / CustomName: the expanded IRI starts with the api-extension namespace; the name is what stands between
+   the first `#` and the next one (strings.Split(expanded, "#")[1]) *)
+Definition api_extension_ns : string := "http://a.ml/vocabularies/api-extension#".
+Fixpoint strip_prefix (p s : string) : option string :=
+  match p, s with
+  | EmptyString, _ => Some s
+  | String a p', String b s' => if Ascii.eqb a b then strip_prefix p' s' else None
+  | _, _ => None
+  end.
+Fixpoint until_hash (s : string) : string :=
+  match s with
+  | EmptyString => EmptyString
+  | String c r => if Ascii.eqb c "#"%char then EmptyString else String c (until_hash r)
+  end.
+Definition custom_name (iri : string) : option string :=
+  match strip_prefix api_extension_ns iri with Some rest => Some (until_hash rest) | None => None end.
+
 Definition step_stmts (s : step) (b src : string) : list pstmt :=
-  if s_inv s then [PInv b (s_iri s) src]
-  else if s_fetch s then [PFetchT b src (s_iri s); PFetchB b]
-  else [PGet src (s_iri s); PArr; PLast b].
+  match custom_name (s_iri s) with
+  | Some name =>
+      if s_inv s then [PCInv b name src]
+      else if s_fetch s then [PCExt b src name; PFetchB b]
+      else [PCExt b src name; PCTmp2 b; PCId b]
+  | None =>
+      if s_inv s then [PInv b (s_iri s) src]
+      else if s_fetch s then [PFetchT b src (s_iri s); PFetchB b]
+      else [PGet src (s_iri s); PArr; PLast b]
+  end.
 
 (* the statements of one clause: [pvlen] = number of path variables so far, [src] = the last one (unused when pvlen = 0) *)
 Fixpoint emit (v : string) (steps : list step) (pvlen : nat) (src : string) : list pstmt :=
